@@ -79,6 +79,22 @@ def generate(seed, run, tier):
             ops.append({'op': 'forward_only', 'no_grad': True})
     if rf.chance(0.25):
         ops.insert(rf.randint(0, len(ops)), {'op': 'crash_restart', 'stale_example': rf.chance(0.3)})
+    rk = Stream(seed, ID, run, 'best_ckpt')
+    if rk.chance(0.15):
+        # "keep the best checkpoint, go on under other sampling options, restore it": the checkpoint was written under
+        # other options than the ones in force when it is loaded back; the next passes are monitored
+        i = rk.randint(0, len(ops))
+        kw = {'temperature': round(rk.loguniform(0.05, 20.0), 4), 'hard': rk.chance(0.5)}
+        if cfg['method'] == 'mps':
+            kw['gumbel'] = rk.chance(0.5)
+            kw['disable_sampling'] = rk.chance(0.3)
+        tail = [{'op': 'save_ckpt'}, {'op': 'softmax_opts', 'kw': kw}]
+        if rk.chance(0.5):
+            tail.append({'op': 'forward_only', 'no_grad': True})
+        tail.append({'op': 'load_ckpt'})
+        for m_ in rk.sample(['train', 'eval'], 2):
+            tail += [{'op': 'set_mode', 'mode': m_}, {'op': 'forward_only', 'no_grad': True}]
+        ops[i:i] = tail
     return {'cfg': cfg, 'ops': ops, 'run_seed': mix(seed, ID, run, 'run')}
 
 
@@ -337,6 +353,27 @@ def execute(case):
                                  'export-not-argmax', f'{tag}: {cname}: kept branches {sorted(kept)} arg-max {best} raw {a.tolist()}',
                                  culprit)
 
+    def adopt_reported_options(why):
+        """after a checkpoint was loaded: a library that persists the sampling options in the state_dict changes them
+        legitimately on load. If every quantizer reports (hard_softmax, gumbel_softmax, disable_sampling) and all
+        agree, the reference adopts the reported values where they differ from the script's - the behaviour is then
+        held against what the model itself reports. On the pinned tree a load never changes them."""
+        if method != 'mps':
+            return
+        rep_ = set()
+        for q in rep.model.modules():
+            if isinstance(q, MPSBaseQtz):
+                try:
+                    rep_.add((bool(q.hard_softmax), bool(q.gumbel_softmax), bool(q.disable_sampling)))
+                except AttributeError:
+                    return
+        if len(rep_) != 1:
+            return
+        h_, g_, d_ = next(iter(rep_))
+        if (h_, g_, d_) != (opts['hard'], opts['gumbel'], opts['disable_sampling']):
+            bump('options_adopted_from_what_the_model_reports_after_' + why)
+            opts['hard'], opts['gumbel'], opts['disable_sampling'] = h_, g_, d_
+
     saved_temperature = [None]
     seen_replaced = [0]
     last_ctrl = 'construction'
@@ -359,6 +396,7 @@ def execute(case):
                 break
             install()
             last_ctrl = 'restart'
+            adopt_reported_options('restart')
             events.append(f'{idx} crash_restart')
             continue
         if k == 'save_ckpt':
@@ -380,6 +418,9 @@ def execute(case):
             break
         if obs.get('aborted'):
             bump('fault_abort_forward')
+        if k == 'load_ckpt':
+            adopt_reported_options('load')
+            last_ctrl = 'load_ckpt'
         if getattr(rep, 'objects_replaced', 0) != seen_replaced[0]:
             seen_replaced[0] = rep.objects_replaced
             install()                            # deepcopy / load_state_dict(assign=True): hooks go on the new objects
